@@ -24,7 +24,7 @@ class InitDomain(TagDomain):
     return frozenset([('from', name)])
 
 
-def rule_ctor(repo, rep):
+def rule_ctor(repo, rep, only=None):
   R = 'R-FLOW:ctor-param-stored'
   rep.rule(R, 'on every path of __init__ (through the base constructors '
            'along the MRO) self.<p> is the very object passed as parameter '
@@ -36,6 +36,8 @@ def rule_ctor(repo, rep):
   rep.rule(R2, '__init__ stores no attribute ending in "_" (fitted state)')
   npairs = 0
   for c in repo.estimators():
+    if only is not None and c.name not in only:
+      continue
     f = repo.resolve_method(c, '__init__')
     if not isinstance(f, FuncInfo):
       rep.unknown(R, c.name + '.__init__', '', 'no repo __init__')
@@ -110,7 +112,8 @@ def rule_ctor(repo, rep):
                   '__init__ assigns fitted attribute(s) %s' % sorted(bad))
     else:
       rep.derived(R2, c.name + '.__init__', site(f))
-  rep.floor('(estimator, constructor parameter) pairs', npairs, 120)
+  rep.floor('(estimator, constructor parameter) pairs', npairs,
+            120 if only is None else 40)
 
 
 class GuardDomain(TagDomain):
